@@ -199,5 +199,22 @@ namespace rkcommon {
       return a.ptr != b.ptr;
     }
 
+    // Handles of different static types (e.g. IntrusivePtr<Derived> and
+    // IntrusivePtr<Base>): compare the identity of the objects. Without these
+    // overloads such a comparison falls back to the implicit conversion of both
+    // handles to bool, so any two non-null handles would compare equal.
+    template <typename T, typename U>
+    bool operator==(const IntrusivePtr<T> &a, const IntrusivePtr<U> &b)
+    {
+      return static_cast<const RefCountedObject *>(a.ptr) ==
+             static_cast<const RefCountedObject *>(b.ptr);
+    }
+
+    template <typename T, typename U>
+    bool operator!=(const IntrusivePtr<T> &a, const IntrusivePtr<U> &b)
+    {
+      return !(a == b);
+    }
+
   }  // namespace memory
 }  // namespace rkcommon
